@@ -156,9 +156,14 @@ def bitposSpec (x : W) : Except Err W :=
   | _ => .error .notOneBit
 
 /-- READING for the shifts: "log. shift" = zeros are shifted in (processor-specific-hints.md spells it
-"logical shift right"); a count of 64 or more (as an unsigned number) shifts everything out. -/
-def shlSpec (a n : W) : W := if n.toNat < 64 then a <<< n.toNat else 0
-def shrSpec (a n : W) : W := if n.toNat < 64 then a >>> n.toNat else 0
+"logical shift right").
+`a · 2^k` on the 64-bit pattern (`k < 0`: the logical shift right the manual documents); the manual does not
+restrict the count, so the shift is total: everything is shifted out from 64 positions on, and a negative count is
+the shift into the other direction -/
+def shiftSpec (a : W) (k : Int) : W :=
+  if k ≥ 64 ∨ k ≤ -64 then 0 else if k ≥ 0 then a <<< k.toNat else a >>> (-k).toNat
+def shlSpec (a n : W) : W := shiftSpec a n.toInt
+def shrSpec (a n : W) : W := shiftSpec a (-n.toInt)
 
 def intBin (o : BinOp) (a b : W) : Except Err W :=
   match o with
